@@ -135,6 +135,61 @@ def float_psi(phi, theta, n):
     return ps
 
 
+def arma_formula_check(ctx, inp, op, args, res, phi_l, theta_eff, sigma):
+    """exact recursion / formula oracle for one call on an ARMA object whose CURRENT parameters are phi_l, theta_eff, sigma"""
+    if op == "impulse_response":
+        (n,) = args
+        psi = [float(v) for v in res]
+        if len(psi) != n or not all(math.isfinite(v) for v in psi):
+            ctx.fail("arma_impulse", "impulse response has wrong length / non-finite values", inp, psi[:8], None); return
+        ex = exact_psi(phi_l, theta_eff, n)
+        if any(abs(frac(a) - e) > Fraction(1, 10**9) * (1 + abs(e)) for a, e in zip(psi, ex)):
+            ctx.fail("arma_impulse", "impulse response violates psi_0=1 / the ARMA recursion", inp, psi[:8], [float(e) for e in ex[:8]])
+    elif op == "spectral_density":
+        two_pi, nres = args
+        w, spect = res
+        phi_a, th_a = np.array(phi_l, float), np.array(theta_eff, float)
+        num = 1 + sum(th_a[k] * np.exp(-1j * w * (k + 1)) for k in range(len(th_a)))
+        den = 1 - sum(phi_a[k] * np.exp(-1j * w * (k + 1)) for k in range(len(phi_a)))
+        exp_s = sigma ** 2 * np.abs(num / den) ** 2
+        wexp = np.arange(nres) * ((2 * math.pi if two_pi else math.pi) / nres)
+        if (len(w) != nres or np.max(np.abs(spect.real - exp_s) / (1 + exp_s)) > 1e-9 or np.max(np.abs(spect.imag)) > 1e-9
+                or np.max(np.abs(w - wexp)) > 1e-12):
+            ctx.fail("arma_spectral", "spectral density != sigma^2 |theta(e^-iw)/phi(e^-iw)|^2", inp, np.asarray(spect).real[:5].tolist(), exp_s[:5].tolist())
+    elif op == "autocovariance":
+        (K,) = args
+        acov = np.asarray(res)
+        long_psi = float_psi(phi_l, theta_eff, 2500)
+        exp_a = np.array([sigma ** 2 * float(np.dot(long_psi[:2500 - k], long_psi[k:])) for k in range(K)])
+        if len(acov) != K or np.max(np.abs(acov - exp_a) / (1 + np.abs(exp_a))) > 1e-9:
+            ctx.fail("arma_autocov", "autocovariance != sigma^2 sum_j psi_j psi_{j+k}", inp, acov[:5].tolist(), exp_a[:5].tolist())
+    elif op == "simulation":
+        Tn, seed = args
+        sim = np.asarray(res)
+        u = np.random.RandomState(seed).standard_normal((Tn, 1)).flatten() * sigma
+        ps = float_psi(phi_l, theta_eff, Tn)
+        exp_x = np.array([sum(ps[j] * u[t - j] for j in range(t + 1)) for t in range(Tn)])
+        if len(sim) != Tn or np.max(np.abs(sim - exp_x) / (1 + np.abs(exp_x))) > 1e-9:
+            ctx.fail("arma_simulation", "simulation is not sum_j psi_j eps_{t-j} of the seeded shocks", inp, sim[:5].tolist(), exp_x[:5].tolist())
+
+
+def arma_do(obj, op, args):
+    if op == "impulse_response":
+        return obj.impulse_response(args[0])
+    if op == "spectral_density":
+        return obj.spectral_density(two_pi=args[0], res=args[1])
+    if op == "autocovariance":
+        return obj.autocovariance(args[0])
+    return obj.simulation(args[0], random_state=args[1])
+
+
+def same_result(a, b):
+    if isinstance(a, tuple):
+        return len(a) == len(b) and all(same_result(x, y) for x, y in zip(a, b))
+    a, b = np.asarray(a), np.asarray(b)
+    return a.shape == b.shape and bool(np.allclose(a, b, rtol=1e-12, atol=1e-12, equal_nan=False))
+
+
 def guarded(ctx, inp, fn):
     """run the implementation; an exception on an admissible input is itself a violation"""
     try:
@@ -305,6 +360,159 @@ def run(ctx):
     bad = ctx.coq_check("arma_impulse_response", IMPORTS, "param * param * nat * list Q", ok, cases, chunk=8, preamble=PRE)
     for i in bad:
         ctx.mismatch("C19.Model.impulse_response (set_params + series division) vs _arma.ARMA.impulse_response", meta[i])
+
+    # ================= operation SEQUENCES on one ARMA object: setters interleaved with calls; after every call the result
+    # must equal that of a FRESH ARMA(phi, theta, sigma) with the current parameters and satisfy the formula oracle
+    cases, meta = [], []
+    ops_all = ["impulse_response", "spectral_density", "autocovariance", "simulation"]
+
+    def draw_params():
+        p, q = rng.randrange(1, 5), rng.randrange(0, 5)
+        phi_l = [-c for c in stable_poly(rng, p)]
+        theta_l = stable_poly(rng, q) if q else [0.0]
+        phi = phi_l[0] if (p == 1 and rng.random() < 0.5) else list(phi_l)
+        theta = theta_l[0] if (len(theta_l) == 1 and rng.random() < 0.5) else list(theta_l)
+        return phi, theta
+
+    def draw_args(op):
+        if op == "impulse_response":
+            return (rng.choice([2, 3, 8, 20]),)
+        if op == "spectral_density":
+            return (rng.random() < 0.5, 32)
+        if op == "autocovariance":
+            return (rng.choice([1, 4, 16]),)
+        return (rng.choice([5, 20]), rng.randrange(10**6))
+
+    with warnings.catch_warnings():
+        warnings.simplefilter("ignore")
+        for si in range(90 if thorough else 30):
+            phi, theta = draw_params()
+            sigma = rng.choice([1.0, 0.5, 2.5, 1.25])
+            obj = ARMA(phi, theta, sigma)
+            history = [("ARMA", jsonable(phi), jsonable(theta), sigma)]
+            coq_ops, coq_out = [], []
+            init = (phi, theta, sigma)
+            # script: forced pattern  call X ; set S ; call X  (S cycles through sigma/phi/theta), then random steps
+            forced_op = ops_all[si % 4]
+            script = [("call", forced_op), ("set", ["sigma", "phi", "theta"][si % 3]), ("call", forced_op)]
+            for _ in range(rng.randrange(1, 5)):
+                script.append(("set", rng.choice(["sigma", "phi", "theta"])) if rng.random() < 0.4 else ("call", rng.choice(ops_all)))
+            if script[-1][0] == "set":
+                script.append(("call", rng.choice(ops_all)))
+            last_args = {}
+            for kind, what in script:
+                if kind == "set":
+                    if what == "sigma":
+                        sigma = rng.choice([s for s in [1.0, 0.5, 2.5, 1.25, 3.0] if s != sigma])
+                        obj.sigma = sigma
+                        coq_ops.append("SetSigma %s" % qlit(frac(sigma)))
+                    elif what == "phi":
+                        phi = draw_params()[0]
+                        obj.phi = phi
+                        coq_ops.append("SetPhi %s" % param_lit(phi))
+                    else:
+                        theta = draw_params()[1]
+                        obj.theta = theta
+                        coq_ops.append("SetTheta %s" % param_lit(theta))
+                    history.append(("set_" + what, jsonable({"sigma": sigma, "phi": phi, "theta": theta}[what])))
+                    ctx.count("armaseq:set_" + what)
+                    continue
+                args = last_args.get(what) if (what in last_args and rng.random() < 0.7) else draw_args(what)
+                last_args[what] = args
+                history.append((what,) + tuple(args))
+                phi_l = [phi] if np.isscalar(phi) else list(phi)
+                theta_eff = [theta] if np.isscalar(theta) else list(theta)
+                inp = {"function": "ARMA", "sequence": jsonable(history), "phi": phi, "theta": theta, "sigma": sigma,
+                       "stateful": True, "call": what}
+                ctx.count("armaseq:" + what)
+                ctx.case(("armaseq", json.dumps(jsonable(history))), nontrivial=True,
+                         sample={"ARMA sequence": jsonable(history)} if si < 2 else None)
+                try:
+                    res = arma_do(obj, what, args)
+                    fresh = arma_do(ARMA(phi, theta, sigma), what, args)
+                except Exception as e:      # noqa
+                    ctx.fail("raises_on_admissible_input", "ARMA.%s raised %s in a sequence" % (what, type(e).__name__), inp, type(e).__name__, "a value")
+                    break
+                if not same_result(res, fresh):
+                    r0 = res[1] if isinstance(res, tuple) else res
+                    f0 = fresh[1] if isinstance(fresh, tuple) else fresh
+                    ctx.fail("arma_stale_state", "result of %s after a sequence of setters/calls differs from a fresh ARMA with the current parameters" % what,
+                             inp, np.real(np.asarray(r0))[:5].tolist(), np.real(np.asarray(f0))[:5].tolist())
+                arma_formula_check(ctx, inp, what, args, res, phi_l, theta_eff, sigma)
+                if what == "impulse_response" and all(math.isfinite(float(v)) for v in res):
+                    coq_ops.append("Impulse %d%%nat" % args[0])
+                    coq_out.append("(Some %s)" % qlist([frac(float(v)) for v in res]))
+            if coq_out:
+                cases.append(tup(param_lit(init[0]), param_lit(init[1]), qlit(frac(init[2])), "[" + "; ".join(coq_ops) + "]", "[" + "; ".join(coq_out) + "]"))
+                meta.append({"function": "ARMA", "sequence": jsonable(history)})
+    ok = ("fun c => let '(phi, theta, sigma, ops, outs) := c in "
+          "list_eqb (fun a b => match a, b with Some x, Some y => Qs_close %s x y | None, None => true | _, _ => false end) "
+          "(arma_run phi theta sigma ops) outs" % T9)
+    bad = ctx.coq_check("arma_sequences", IMPORTS, "param * param * Q * list arma_op * list (option (list Q))", ok, cases, chunk=8, preamble=PRE)
+    for i in bad:
+        ctx.mismatch("C19.Model.arma_run (fold of setters/impulse_response) vs one ARMA object driven by the same sequence", meta[i])
+
+    # ================= ECDF and BetaBinomial objects with re-assigned attributes
+    for si in range(60 if thorough else 20):
+        obs = gen_sample(rng, rng.randrange(1, 40))
+        F = ECDF(obs)
+        hist = [("ECDF", obs)]
+        for step in range(rng.randrange(2, 5)):
+            if step and rng.random() < 0.6:
+                obs = gen_sample(rng, rng.randrange(1, 40))
+                F.observations = np.asarray(obs)
+                hist.append(("set_observations", obs))
+            xs = [rng.choice(obs), min(obs) - 0.5, max(obs), rng.uniform(0, 10)]
+            inp = {"function": "ECDF", "sequence": jsonable(hist), "obs": obs, "x": xs, "stateful": True}
+            ctx.case(("ecdfseq", json.dumps(jsonable(hist)), tuple(xs)), nontrivial=(len(obs) >= 3)); ctx.count("ecdfseq:calls")
+            vals = guarded(ctx, inp, lambda: [float(v) for v in F(np.array(xs))])
+            if vals is None:
+                break
+            exp_v = [sum(1 for o in obs if o <= x) / len(obs) for x in xs]
+            if vals != exp_v or vals != [float(v) for v in ECDF(obs)(np.array(xs))]:
+                ctx.fail("ecdf_spec", "ECDF(x) after re-assigning observations is not the fraction of CURRENT observations <= x", inp, vals, exp_v)
+    for si in range(60 if thorough else 20):
+        n, a, b = rng.randrange(1, 61), Fraction(rng.randrange(3, 800), 40), Fraction(rng.randrange(3, 800), 40)
+        d = BetaBinomial(n, float(a), float(b))
+        hist = [("BetaBinomial", n, str(a), str(b))]
+        for step in range(rng.randrange(2, 5)):
+            if step:
+                which = rng.choice(["n", "a", "b", "all"])
+                if which in ("n", "all"):
+                    n = rng.randrange(1, 61); d.n = n
+                if which in ("a", "all"):
+                    a = Fraction(rng.randrange(3, 800), 40); d.a = float(a)
+                if which in ("b", "all"):
+                    b = Fraction(rng.randrange(3, 800), 40); d.b = float(b)
+                hist.append(("set_" + which, n, str(a), str(b)))
+            inp = {"function": "BetaBinomial", "sequence": jsonable(hist), "n": n, "a": str(a), "b": str(b), "stateful": True}
+            ctx.case(("bbseq", json.dumps(jsonable(hist))), nontrivial=True); ctx.count("bbseq:reads")
+            order = rng.sample(["pdf", "mean", "var", "std", "skew"], 5)
+            got = guarded(ctx, inp, lambda: {k: (np.asarray(d.pdf(), float) if k == "pdf" else float(getattr(d, k))) for k in order})
+            if got is None:
+                break
+            fr = BetaBinomial(n, float(a), float(b))
+            # exact closed forms / exact pdf for the CURRENT parameters
+            e_mean = n * a / (a + b); e_var = n * a * b * (a + b + n) / ((a + b) ** 2 * (a + b + 1))
+            pdf_ex = []
+            for k in range(n + 1):
+                t = Fraction(math.comb(n, k))
+                for i in range(k):
+                    t *= (a + i)
+                for i in range(n - k):
+                    t *= (b + i)
+                for i in range(n):
+                    t /= (a + b + i)
+                pdf_ex.append(t)
+            m3 = sum((k - e_mean) ** 3 * p for k, p in enumerate(pdf_ex))
+            e_skew = float(m3) / float(e_var) ** 1.5
+            bad_ = (abs(got["mean"] - float(e_mean)) > 1e-12 * (1 + float(e_mean)) or abs(got["var"] - float(e_var)) > 1e-12 * (1 + float(e_var))
+                    or abs(got["std"] - math.sqrt(float(e_var))) > 1e-12 * (1 + float(e_var)) or abs(got["skew"] - e_skew) > 1e-9 * (1 + abs(e_skew))
+                    or len(got["pdf"]) != n + 1 or any(abs(float(p) - float(q)) > 1e-11 * float(q) for p, q in zip(got["pdf"], pdf_ex))
+                    or not same_result(got["pdf"], fr.pdf()) or got["mean"] != fr.mean or got["var"] != fr.var or got["skew"] != fr.skew)
+            if bad_:
+                ctx.fail("bb_stale_state", "BetaBinomial mean/var/std/skew/pdf after re-assigning n, a, b differ from the moments of the CURRENT distribution",
+                         inp, {k: (v[:4].tolist() if k == "pdf" else v) for k, v in got.items()}, {"mean": float(e_mean), "var": float(e_var), "skew": e_skew})
 
     # ================= hamilton_filter
     cases, meta = [], []
@@ -496,7 +704,30 @@ def replay(data):
     print("replay:", json.dumps(first)[:1500])
     inp = first.get("input", {})
     fn = inp.get("function")
-    if fn == "ARMA":
+    if fn == "ARMA" and inp.get("sequence"):
+        from quantecon._arma import ARMA
+        seq = inp["sequence"]
+        with warnings.catch_warnings():
+            warnings.simplefilter("ignore")
+            phi, theta, sigma = seq[0][1], seq[0][2], seq[0][3]
+            obj = ARMA(phi, theta, sigma)
+            verdict = "OK"
+            for st in seq[1:]:
+                if st[0] == "set_sigma":
+                    sigma = st[1]; obj.sigma = sigma
+                elif st[0] == "set_phi":
+                    phi = st[1]; obj.phi = phi
+                elif st[0] == "set_theta":
+                    theta = st[1]; obj.theta = theta
+                else:
+                    res = arma_do(obj, st[0], tuple(st[1:])); fresh = arma_do(ARMA(phi, theta, sigma), st[0], tuple(st[1:]))
+                    same = same_result(res, fresh)
+                    r0 = res[1] if isinstance(res, tuple) else res; f0 = fresh[1] if isinstance(fresh, tuple) else fresh
+                    print(st, "same object:", np.real(np.asarray(r0))[:4].tolist(), " fresh ARMA(current params):", np.real(np.asarray(f0))[:4].tolist(), "equal" if same else "DIFFERENT")
+                    if not same:
+                        verdict = "VIOLATED"
+        print("verdict:", verdict)
+    elif fn == "ARMA":
         from quantecon._arma import ARMA
         phi, theta = inp["phi"], inp["theta"]
         with warnings.catch_warnings():
